@@ -24,7 +24,7 @@ class Contract:
                  post=(), xpost=None, invariants=None, calls=None, trusted=False, pure_fn=None,
                  note="", inv_entry=True, inv_exit=True, two_state=None, labels=None,
                  covers=True, returns_type=None, raw_post=None, raw_xpost=None, raw_requires=None,
-                 ghost_locals=None, loop_modifies=None, kind="function", generator=False, pure_when=None):
+                 ghost_locals=None, loop_modifies=None, kind="function", generator=False, pure_when=None, assumes=()):
         self.name = name
         self.params = params
         self.defaults = defaults or {}
@@ -51,6 +51,7 @@ class Contract:
         self.ghost_locals = ghost_locals or {}
         self.loop_modifies = loop_modifies or {}
         self.kind = kind
+        self.assumes = _lst(assumes)    # assumed at entry of the body, NOT required from callers (listed as assumptions)
         self.pure_when = pure_when      # spec condition (entry state) under which the call changes nothing
         self.generator = generator      # body is an @asynq generator: `yield` is a call to Yield
 
